@@ -52,6 +52,8 @@ package graph
 //@ func NewMemory
 //@   ensures [C07:ri] graphRI(result)
 //@   ensures [C07:empty] forall k descriptor.Descriptor :: !(k in result.nodes) && !(k in result.predecessors)
+//@   ensures [fresh] !old(alive(result)) && alive(result)
+//@   modifies alloc, new Memory.*, new map[descriptor.Descriptor]ocispec.Descriptor, new map[descriptor.Descriptor]set.Set[descriptor.Descriptor]
 //@
 //@ func (*Memory).index
 //@   requires [ri] graphRI(m)
@@ -97,3 +99,14 @@ package graph
 //@   ensures [C07:exact-complete] forall k descriptor.Descriptor :: inPreds(m, key, k) ==> (exists i int :: 0 <= i && i < len(result0) && predKey(i) == k)
 //@   ensures [C07:no-error] result1 == nil
 //@   modifies ghost.predKey, elems[ocispec.Descriptor], alloc
+//@
+//@ import digest "github.com/opencontainers/go-digest"
+//@ func (*Memory).DigestSet
+//@   requires [ri] graphRI(m)
+//@   loop 0 invariant [s] s != nil && alive(s)
+//@   loop 0 invariant [visited-in] forall k descriptor.Descriptor :: k in $visited ==> k.Digest in s
+//@   loop 0 invariant [sound] forall d digest.Digest :: d in s ==> (exists k descriptor.Descriptor :: k in m.nodes && k.Digest == d)
+//@   ensures [C09:complete] forall k descriptor.Descriptor :: k in m.nodes ==> k.Digest in result
+//@   ensures [C09:sound] forall d digest.Digest :: d in result ==> (exists k descriptor.Descriptor :: k in m.nodes && k.Digest == d)
+//@   ensures [fresh] result != nil && !old(alive(result))
+//@   modifies alloc, new map[digest.Digest]unit
